@@ -11,6 +11,7 @@ mod isolate;
 mod dom;
 mod dump;
 mod lift;
+mod tables;
 
 pub fn with_catch<F: FnOnce() -> String + panic::UnwindSafe>(f: F) -> String {
     match panic::catch_unwind(f) {
@@ -101,6 +102,9 @@ fn main() {
                 let reply = with_catch(move || defpasses::curve(&line));
                 writeln!(out, "{}", reply).unwrap();
             }
+        }
+        "tables" => {
+            write!(out, "{}", tables::render()).unwrap();
         }
         "primes" => {
             use program_structure::constants::{Curve, UsefulConstants};
